@@ -334,9 +334,8 @@ def flatten_dfs(dfs_features, labels, column_name='Label'):
         if len(labels) != len(dfs_features):
             raise ValueError("The labels and dfs_features must be the same size.")
 
-        # Add labels
-        for idx, df in enumerate(dfs_features):
-            df[column_name] = labels[idx]
+        # Add labels (to a copy of each table: the same table may appear at several positions)
+        dfs_features = [df.assign(**{column_name: labels[idx]}) for idx, df in enumerate(dfs_features)]
 
         # Flatten
         df_features = pd.concat(dfs_features, axis=0)
@@ -349,11 +348,11 @@ def flatten_dfs(dfs_features, labels, column_name='Label'):
         if len(labels) != dim0_len * dim1_len:
             raise ValueError("The labels and dfs_features must be the same size.")
 
-        # Add labels
-        for idx, (dim0, dim1) in enumerate(product(range(dim0_len), range(dim1_len))):
-            dfs_features[dim0][dim1][column_name] = labels[idx]
+        # Add labels (to a copy of each table: the same table may appear at several positions)
+        dfs_flat = [dfs_features[dim0][dim1].assign(**{column_name: labels[idx]}) for idx, (dim0, dim1)
+                    in enumerate(product(range(dim0_len), range(dim1_len)))]
 
         # Flatten
-        df_features = pd.concat([df for dfs in dfs_features for df in dfs])
+        df_features = pd.concat(dfs_flat)
 
     return df_features
